@@ -197,7 +197,7 @@ def run(ctx):
     ctx.rule("R19.scope", "file-system mutations target only dbfile, the mkstemp scratch "
              "file and names built from dbfile by concatenation")
     PATH_CALLS = ("tempfile.mkstemp", "os.path.join", "os.path.dirname", "os.path.basename",
-                  "os.path.abspath", "str", ".format", "os.path.split", "os.fspath")
+                  "os.path.abspath", "str", ".format", "os.path.split", "os.fspath", "fstring")
     nsc = 0
     seen_sc = set()
     for en in model.DB_ENTRIES:
